@@ -1,5 +1,5 @@
 # executed by gen_manifest.py
-HOOK_COMMITS = []
+HOOK_COMMITS = ['da452d0']
 NOT_APPLICABLE = {}
 NOTES = ("Every verdict is produced by TLC evaluating a module under /verif/specs; Python only drives the real code, "
          "projects floats to the exact domain of the spec and ships events. See DESIGN.md.")
